@@ -19,13 +19,15 @@ RULE = ('Token-soup fuzzer: texts are concatenations of 1-14 tokens drawn from d
         'parser/_parser.py are counted with sys.monitoring and bounded by 5000 + 1000*len(text) (promptness as logical '
         'steps); the zone-factory cache locks are replaced by guard locks that turn a re-acquisition by the owning thread '
         '(which can never return) into a reported self-deadlock, and process-global settings (decimal context, calendar '
-        'first weekday, locale, int-digit limit) are compared before and after each call.  Non-trivial = every text except the few fixed smoke inputs; distinct = (outcome class, token-kind '
+        'first weekday, locale, int-digit limit) are compared before and after each call.  Overlapping calls: 2-3 tasks parse texts '
+        'concurrently under the baton scheduler (switch points on every line of the tokenizer and the parser core; PCT and random '
+        'schedules) and 6 free-running threads with a 1 us switch interval; every outcome must equal that of the same call alone.  Non-trivial = every text except the few fixed smoke inputs; distinct = (outcome class, token-kind '
         'multiset, input kind, option set).')
 ASSUMPTIONS = ['bytes input is UTF-8 text (undecodable bytes are not "text input")',
                'tzinfos mappings/callables supplied by the harness return only documented value types',
                'promptness is judged on executed-line counts, never on wall clock']
 MANIFEST = {
-    'technique': 'runtime monitor on parser.parse (exception whitelist at the raise path, re-issue determinism check, sys.monitoring line-count bound) under a token-soup fuzzer',
+    'technique': 'runtime monitor on parser.parse (exception whitelist at the raise path, re-issue determinism check, sys.monitoring line-count bound) under a token-soup fuzzer; overlapping calls under a line-granular thread scheduler compared with the same calls alone',
     'level_text': 'The real parse() is driven with tens of thousands of hostile texts and option sets; the monitor sees every '
                   'call including its exceptional exit, re-issues calls to detect hidden state, and bounds the logical step '
                   'count per call.  Exploration: held on the inputs observed.',
@@ -324,6 +326,90 @@ def run(ctx):
         lc.stop()
         unguard()
         uninstall()
+    if ctx.shard == 0:
+        concurrent_calls(ctx, P, PP, ctx.rng)
+
+
+CONC_TEXTS = ['1999.12.31 23:59', 'Sep 25 2003 10:36:28', '2003-09-25T10:49:41.5-03:00', 'Thu, 25 Sep 2003 10:49:41 -0300', '10h36m28.5s',
+              'Today is 25 of September of 2003, exactly at 10:49:41 with timezone -03:00.', '20030925T104941', 'garbage ##', '99999999999999999999',
+              '32/13/2000', '', '10 pm', 'Jan. 1st 2021', '3rd of May 2001', '13:04 +0530 Mar 7 1989', '1.2.3.4.5.6', 'a.m. 10:00 Sat']
+
+
+def concurrent_calls(ctx, P, PP, rng):
+    """Overlapping parse() calls from several threads: each must give the outcome the same call gives alone
+    (the outcome is a function of the arguments - nothing shared between calls).  Scheduled at line granularity inside
+    the tokenizer and the parser core, then free-running."""
+    from vf import sched as S
+    import threading
+
+    def outcome(text, kw):
+        try:
+            return mon_parse.describe_outcome(('ok', P.parse(text, **kw)))
+        except Exception as e:
+            return mon_parse.describe_outcome(('exc', e))
+    kw_pool = [{}, {}, {'fuzzy': True}, {'fuzzy_with_tokens': True}, {'dayfirst': True}, {'default': D.datetime(2003, 9, 25)}]
+    codes = [c for c in mon_parse.code_objects_of(PP)
+             if c.co_qualname.startswith(('_timelex.', 'parser._parse', 'parser.parse', '_ymd.', 'parser._parse_numeric_token'))]
+    ctx.note('concurrent_switch_code_objects', len(codes))
+    sigs = set()
+    n_runs = 60 if ctx.tier == 'quick' else 800
+    for r in range(n_runs):
+        tasks = [[(rng.choice(CONC_TEXTS), rng.choice(kw_pool)) for _ in range(rng.randint(1, 2))] for _ in range(rng.randint(2, 3))]
+        expected = [[outcome(t, kw) for t, kw in ws] for ws in tasks]
+        if r % 2:
+            pol = S.RandomPolicy(rng, rng.choice([.05, .2, .5]))
+        else:
+            pol = S.PCTPolicy(rng, len(tasks), depth=rng.randint(1, 3), horizon=400)
+        s = S.Sched(pol, codes, max_steps=60000)
+        s.install()
+        try:
+            results, completed = s.run([(lambda ws=ws: [outcome(t, kw) for t, kw in ws]) for ws in tasks])
+        finally:
+            s.uninstall()
+        ctx.ev()
+        ctx.count('concurrent_scheduled_runs')
+        sigs.add(s.signature())
+        case = {'workload': 'concurrent', 'tasks': [[(t, sorted(k for k in kw)) for t, kw in ws] for ws in tasks]}
+        if not completed:
+            ctx.inconclusive_because('scheduled parse run did not complete')
+            continue
+        for i, exp in enumerate(expected):
+            got = results.get('T%d' % i)
+            if got is None or got[0] != 'ok':
+                ctx.violation('concurrent-task-exception', case, 'T%d: %r' % (i, got))
+            elif got[1] != exp:
+                ctx.violation('concurrent-calls-interfere', case, 'T%d got %r, alone the same calls give %r' % (i, got[1], exp))
+    ctx.count('concurrent_distinct_interleavings', len(sigs))
+    # free-running threads (real preemption; tiny switch interval)
+    import sys as _sys
+    old = _sys.getswitchinterval()
+    _sys.setswitchinterval(1e-6)
+    try:
+        work = [(rng.choice(CONC_TEXTS), rng.choice(kw_pool)) for _ in range(40)]
+        exp = [outcome(t, kw) for t, kw in work]
+        bad = []
+
+        def worker(k):
+            for rep in range(6 if ctx.tier == 'quick' else 40):
+                for j in range(len(work)):
+                    i = (j * (k + 1) + rep) % len(work)
+                    got = outcome(*work[i])
+                    if got != exp[i]:
+                        bad.append((work[i][0], got, exp[i]))
+        ths = [threading.Thread(target=worker, args=(k,)) for k in range(6)]
+        for t in ths:
+            t.start()
+        for t in ths:
+            t.join(120)
+        if any(t.is_alive() for t in ths):
+            ctx.inconclusive_because('free-running parse threads did not finish')
+        ctx.ev()
+        ctx.count('concurrent_free_calls', 6 * len(work) * (6 if ctx.tier == 'quick' else 40))
+        if bad:
+            ctx.violation('concurrent-calls-interfere', {'workload': 'concurrent-free', 'text': bad[0][0]},
+                          '%d of the overlapping calls differ from the same call alone; first: got %r, alone %r' % (len(bad), bad[0][1], bad[0][2]))
+    finally:
+        _sys.setswitchinterval(old)
 
 
 def long_inputs(ctx, st, lc, P, rng):
@@ -385,7 +471,8 @@ def floors(agg, tier):
     if h.get('parser.parse', 0) < need:
         out.append('monitored parse() reached only %d times' % h.get('parser.parse', 0))
     for k, n in (('outcome_ok', need // 20), ('outcome_ParserError', need // 20), ('outcome_OverflowError', 3),
-                 ('long_inputs', 60), ('non_text_calls', 10), ('entry_points_checked', 4)):
+                 ('long_inputs', 60), ('non_text_calls', 10), ('entry_points_checked', 4), ('concurrent_scheduled_runs', 50),
+                 ('concurrent_distinct_interleavings', 30), ('concurrent_free_calls', 1000)):
         if c.get(k, 0) < n:
             out.append('%s only %d (< %d)' % (k, c.get(k, 0), n))
     if len(agg['distinct']) < 3000:
